@@ -134,6 +134,17 @@ theorem C07_width_unknown (refWidth : String → Option Rat) (aliases : List (St
     ∃ e, particleStep refWidth aliases acc n m none = .error e := by
   simp [particleStep, hm, hr]
 
+/-- numbers are reported as numbers: a JetSet value written as an integer stays an integer, any other
+    numeral is a float; a Pythia value is numeric when it is written as a numeral, a word stays a word -/
+theorem C07_jetset_int (s : String) (n : Int) (h : intValue s = some n) : intOrFloat s = .int n := by
+  simp [intOrFloat, h]
+theorem C07_jetset_float (s : String) (q : Rat) (h1 : intValue s = none) (h2 : numValue s = some q) :
+    intOrFloat s = .num q := by simp [intOrFloat, h1, h2]
+theorem C07_pythia_num (l : String) (q : Rat) (h : numValue l = some q) : strOrFloat (.num l) = .num q := by
+  simp [strOrFloat, h]
+theorem C07_pythia_word (w : String) (h : floatWord w = none) : strOrFloat (.word w) = .word w := by
+  simp [strOrFloat, h]
+
 /-- non-vacuity -/
 def exDoc : Doc := [.alias "MyD" "D+", .decay "A" [], .alias "MyD" "D-", .globalPhotos true, .cdecay "b", .cdecay "a", .globalPhotos false]
 example : dget (dictAliases exDoc) "MyD" = some "D-" := by decide
